@@ -569,6 +569,11 @@ func (env *Env) assign(s *Stmt) {
 		default:
 			env.abort("rtime op " + s.Op)
 		}
+		if l.D > 9e12 || l.D < -9e12 {
+			// sums of literals in years leave ±292 years (int64 nanoseconds): not "within range"
+			env.abort("RTIME arithmetic beyond range")
+			return
+		}
 		env.Vars[s.Name] = l
 	case TFloat:
 		rf := r.F
